@@ -168,6 +168,25 @@ def check(prog, run):
     r.instance("O-unknown-field variable route: %s" % ok)
     if not ok:
         run.report(r, "%s:_coerce_input_object:O-unknown-field" % CV, cio.where(), "undeclared keys of an input object are not rejected")
+    else:
+        # the scan over the provided keys must lie on every path that returns the coerced dictionary
+        def uev(x):
+            if isinstance(x, ast.Call) and isinstance(x.func, ast.Attribute) and x.func.attr == "keys" and ast.unparse(x.func.value) == cio.params[0]:
+                return "scan-keys"
+            return None
+
+        def ubev(test, truth):
+            return None
+        normal, _ = event_paths(cio.node, lambda x: "scan-keys" if (isinstance(x, ast.Name) and isinstance(x.ctx, ast.Load) and x.id == cio.params[0]
+                                                                       and isinstance(getattr(x, "_parent", None), (ast.For,)) and x._parent.iter is x) else uev(x),
+                                may_raise=lambda n_: None, cap=6)
+        # `for k in value.keys()` / `for k in value`: the iter expression is evaluated by the For header ('iter' kind)
+        for seq in sorted(normal):
+            r.instance("_coerce_input_object returning path %s" % list(seq))
+            if "scan-keys" not in seq:
+                run.report(r, "%s:_coerce_input_object:O-unknown-field(conditional)" % CV, cio.where(),
+                           "some path returns the coerced dictionary without scanning the provided keys for undeclared ones: the "
+                           "unknown-field rejection is conditional (e.g. skipped when defaults were filled in)")
 
     # ---- I1 Int range
     r = run.rule("I1", "coerce_int accepts exactly the integers in [-2^31, 2^31 - 1] (interval computed from the folded bounds "
